@@ -494,4 +494,32 @@ def exFS2 : FS :=
         q = ["ps", "MK", "fork0", "files"] ∨ q = ["ps", "MK", "fork1", "files"] then some .dir else none
     dom := [] }
 
+/-! ## mapped top-level calls: what `content_preserved_mapped` promises -/
+
+/-- the rewritten record of a top-level call mapped over a typed map, as promised when nothing
+interferes: the entry of a legal key `k` is its record with every file leaf replaced by `expectVal`
+(judged in the ORIGINAL file system `fs0`, destinations below `top/<k>`); the entry of a refused key
+is unchanged -/
+def expectedMapped (fs0 : FS) (params : List (String × String × Ty)) (top : Path) (kvs : List (String × J)) :
+    List (String × J) :=
+  kvs.map fun kv =>
+    if legalName kv.1 then (kv.1, J.obj (pureOuts (expectVal fs0) params (fieldsOf kv.2) (top ++ [kv.1]))) else kv
+
+/-- example of a mapped call: three fork keys (one refused), two file outputs per fork -/
+def exKvsM : List (String × J) :=
+  [("a", .obj [("r", .str "/ps/MK/fork0/files/f"), ("s", .str "/ps/MK/fork0/files/g")]),
+   ("a/", .obj [("r", .str "/ps/MK/fork1/files/f"), ("s", .str "/ps/MK/fork1/files/g")]),
+   ("b", .obj [("r", .str "/ps/MK/fork2/files/f"), ("s", .str "/ps/MK/fork2/files/g")])]
+
+def exFSM : FS :=
+  { get := fun q =>
+      if q = ["ps", "MK", "fork0", "files", "f"] then some (.file 1)
+      else if q = ["ps", "MK", "fork0", "files", "g"] then some (.file 2)
+      else if q = ["ps", "MK", "fork1", "files", "f"] then some (.file 3)
+      else if q = ["ps", "MK", "fork1", "files", "g"] then some (.file 4)
+      else if q = ["ps", "MK", "fork2", "files", "f"] then some (.file 5)
+      else if q = ["ps", "MK", "fork2", "files", "g"] then some (.file 6)
+      else if q = ["ps"] ∨ q = ["ps", "MK"] then some .dir else none
+    dom := [] }
+
 end Martian.PostProcess
